@@ -211,7 +211,7 @@ def knobs(rng):
 
 def plan(tier, seed):
     quick = tier == "quick"
-    return {"nshards": 16, "params": {"soft_s": 70 if quick else 800, "script_len": 8 if quick else 16, "ninputs": 4 if quick else 10}, "hard_timeout_s": 400 if quick else 3000}
+    return {"nshards": 16, "params": {"soft_s": 300 if quick else 1200, "nprograms": 50 if quick else 600, "script_len": 8 if quick else 16, "ninputs": 4 if quick else 10}, "hard_timeout_s": 700 if quick else 3400}
 
 
 def shard(ctx):
